@@ -3,14 +3,18 @@ CrossHair/z3 split the finite-domain structure (position, kind of the first and 
 builds the tree, runs the real renderer and reads the literals back from the rendered text with an independent scanner
 (refs/readers-style: the target's string rules, SQL number syntax); they must be the written values, in textual order."""
 import re
+import datetime as dt
 try:
     from crosshair.tracers import NoTracing
 except ImportError:
     import contextlib
     NoTracing = contextlib.nullcontext
 
+DATE_VALUES = [dt.date(2020, 1, 2), dt.datetime(2020, 1, 2, 3, 4, 5), dt.datetime(2020, 1, 2, 3, 4, 5, 6),
+               dt.datetime(2020, 1, 2, 3, 4, 5, tzinfo=dt.timezone(dt.timedelta(hours=-5, minutes=-30))), dt.timedelta(days=1, seconds=2),
+               dt.timedelta(days=-1, microseconds=5), dt.date(1, 1, 1), dt.datetime(9999, 12, 31, 23, 59, 59, 999999)]
 DIALECTS = ['mysql', 'postgresql', 'postgres', 'sqlite', 'mssql', 'oracle', 'Snowflake']
-KINDS = ['int', 'float', 'bool', 'null', 'str']
+KINDS = ['int', 'float', 'bool', 'null', 'str', 'date']
 VALUES = {
     'int': [0, 7, -3, 2 ** 40],
     'float': [2.5, 0.25, -0.5, 1e-07, 123456789.125, 3.0],
@@ -19,6 +23,8 @@ VALUES = {
     # strings: plain, a quote, number-like, empty, and the characters the property names (line break with blanks around it, double quote,
     # comment markers, back-slash, percent / colon / semicolon) - pairs of them meet in every position
     'str': ['x', "it's", '2.5', '', 'a \n b', 'q"q', '--c /*', 'x\\', '%s :p ;', "''"],
+    # dates: the property names them; the literal must read back as str(value) (the form both printers use)
+    'date': DATE_VALUES,
 }
 POSITIONS = ['select-list', 'where-and', 'in-list', 'not-in-list-3', 'between', 'insert-rows', 'update-set-where', 'function-args', 'case', 'in-list-first-of-3', 'limit-offset', 'union-limit', 'subquery-limit']
 
@@ -157,6 +163,8 @@ def literals(text, dialect):
 
 
 def same(got, want):
+    if isinstance(want, (dt.date, dt.timedelta)):
+        want = str(want)
     if want is None or got is None:
         return got is None and want is None
     if isinstance(want, bool):
